@@ -25,7 +25,7 @@ PROP_MODULES = {
     "C08": ["contracts.c08", "contracts.c08b", "contracts.c15", "contracts.c12", "contracts.c15_bounded", "contracts.c13c"],
     "C15": ["contracts.c15", "contracts.c13", "contracts.c08", "contracts.c08b", "contracts.c10", "contracts.c17", "contracts.c14", "contracts.c12", "contracts.c15_bounded"],
     "C16": ["contracts.c16", "contracts.c16_bounded", "contracts.c13c"],
-    "C09": ["contracts.c09", "contracts.c09_bounded", "contracts.c08"],
+    "C09": ["contracts.c09", "contracts.c09_bounded", "contracts.c08", "contracts.c10b", "contracts.c06b"],
     "C10": ["contracts.c10", "contracts.c10b", "contracts.c10_bounded"],
     "C17": ["contracts.c17", "contracts.c05", "contracts.c05c", "contracts.c17_bounded"],
     "C18": ["contracts.c18", "contracts.c18_bounded"],
